@@ -24,6 +24,7 @@ import GE.Model.TagSemJson
 import GE.Model.TagTree
 import GE.Model.Link
 import GE.Model.ChildArgs
+import GE.JsWriterTrace
 /-!
 Model driver: one request per line (`op TAB field…`), one answer line per request.
 Unknown ops answer `bad-op` (never defaulted).
@@ -251,6 +252,7 @@ def step (fs : List String) : String :=
       match GE.Link.lookup G path (mk path defs) srcs P with
       | some l => l
       | none => ""))
+  | "jswriter" :: evs => GE.Codec.esc (GE.JsWriterTrace.answer evs)
   | ["child_args", kinds, ws] =>
     let ks := (kinds.splitOn ",").filter (· ≠ "")
     let letters := (ks.flatMap GE.ChildArgs.calls).eraseDups
